@@ -31,6 +31,9 @@ from llama_agents.server._store.abstract_workflow_store import HandlerQuery  # n
 from llama_agents.server._store.memory_workflow_store import MemoryWorkflowStore  # noqa: E402
 from llama_agents.server._store.sqlite.sqlite_workflow_store import SqliteWorkflowStore  # noqa: E402
 from workflows.plugins.basic import BasicRuntime  # noqa: E402
+from llama_agents.server._store.sqlite import sqlite_workflow_store as _sws  # noqa: E402
+
+_ORIG_TICK_PAGE = _sws._TICK_PAGE_SIZE
 
 _DT_MODULES = [
     "llama_agents.server._runtime.server_runtime",
@@ -176,6 +179,10 @@ class ServerWorld(EngineWorld):
         self.trace = IncTrace(self.clock)
         self.tmp = TmpDir()
         self.backend = cfg.get("backend") or tape.choice(cfg.get("backends", ["sqlite"]), "backend")
+        # tuning knob randomised per run: the page size of SqliteWorkflowStore.stream_ticks (100 in the shipped code), so
+        # that page boundaries fall inside the short tick logs of generated programs
+        _sws._TICK_PAGE_SIZE = tape.choice([_ORIG_TICK_PAGE, _ORIG_TICK_PAGE, 2, 3, 5], "knob.tick-page")
+        self.knobs = {"tick_page_size": _sws._TICK_PAGE_SIZE}
         self.memory_store = MemoryWorkflowStore() if self.backend == "memory" else None
         self.incs: list[Incarnation] = []
         self.crash_event: asyncio.Event | None = None
@@ -232,6 +239,7 @@ class ServerWorld(EngineWorld):
     def close(self) -> None:
         SEAM.active = False
         SEAM.on_crash = None
+        _sws._TICK_PAGE_SIZE = _ORIG_TICK_PAGE
         try:
             super().close()
         finally:
